@@ -212,6 +212,9 @@ func (c *Client) NFS(proc uint32, args []byte) (any, *nfsclient.Reply, error) {
 		return nil, rep, derr
 	}
 	c.trace = append(c.trace, nfsclient.NFSProcName(proc)+":"+summarize(res))
+	if simrt.Tracing() {
+		simrt.Event("reply %s: %s", nfsclient.NFSProcName(proc), clip(summarize(res), 300))
+	}
 	return res, rep, nil
 }
 
